@@ -147,6 +147,9 @@ func (nr *netRun) checkIDs(opens []*idOpen, before map[datatransfer.ChannelID]Sn
 		seen[o.x.chid.ID] = o
 	}
 	r.Probe("ids-checked")
+	if len(ok) >= 2 {
+		r.Probe("nontrivial")
+	}
 	// strictly increasing: an open that began after another had returned gets a larger id (same life, and across
 	// lives - the clock never went back)
 	sort.SliceStable(ok, func(i, j int) bool { return ok[i].s1 < ok[j].s1 })
